@@ -1,85 +1,121 @@
 """Arrangements of footnote references and definitions for C11 and their Markdown rendering.
 
-An arrangement is a list of top-level items
-   ["R", [labels]]                      paragraph with references
-   ["D", label, [labels in body]]       top-level definition
-   ["B", kind, [inner...]]              container, kind = "quote" | "list"; inner = ["r", [labels]] | ["d", label, [labels]]
-Every definition gets a unique body number (its position among the definitions, from 1)."""
+An arrangement is a list of items (the children of the document), each
+   ["R", [labels]]                  a paragraph with references        (optional 3rd element = style:
+                                    "para" | "table" (references in table cells) | "field" (field list body))
+   ["D", label, [labels in body]]   a definition
+   ["B", kind, [items...]]          a container holding items (any depth):
+                                    "quote" block quote | "list" one-item bullet list | "dl" the definition of a
+                                    definition list (its term is a separate leaf block) | "section" a heading
+                                    (its title is the first leaf, references allowed) with everything after it
+Every definition gets a unique body number (its position among the definitions, from 1).
+"section" may only appear at top level and only sections may follow a section."""
 from __future__ import annotations
 
 import itertools
 
 
 def render(arr):
-    """-> (text, info) ; info: defs = [{label, body, line, inbox}], ref_labels = labels of the references in
-    document order, not counting references written inside a duplicate definition (which is dropped as a whole)"""
+    """-> (text, info); info: defs = [{label, body, line}], ref_labels = labels of the references in document
+    order, not counting references written inside a duplicate definition (which is dropped as a whole)"""
     lines = []
     defs = []
     ref_labels = []
-    pno = [0]
     seen = set()
+    cnt = {"p": 0, "list": 0, "term": 0}
 
-    def refs_txt(labels):
-        pno[0] += 1
-        out = f"p{pno[0]}"
+    def refs_txt(labels, word="x"):
+        out = ""
         for l in labels:
             ref_labels.append(l)
-            out += f" x[^{l}]"
+            out += f" {word}[^{l}]"
         return out
 
-    def def_txt(label, brefs, inbox):
-        body = len(defs) + 1
-        d = {"label": label, "body": body, "inbox": inbox, "line": None}
-        defs.append(d)
-        out = f"[^{label}]: body{body}z"
-        dup = label in seen
-        seen.add(label)
-        for l in brefs:
-            if not dup:
-                ref_labels.append(l)
-            out += f" y[^{l}]"
-        return out, d
-
-    nlist = [0]
-
-    for it in arr:
+    def emit(it, p1, pr):
         if it[0] == "R":
-            if lines:
-                lines.append("")
-            lines.append(refs_txt(it[1]))
+            style = it[2] if len(it) > 2 else "para"
+            cnt["p"] += 1
+            if style == "table":
+                lines.append(p1 + "| h |")
+                lines.append(pr + "|---|")
+                lines.append(pr + f"| p{cnt['p']}{refs_txt(it[1])} |")
+            elif style == "field":
+                lines.append(p1 + f":fld{cnt['p']}: p{cnt['p']}{refs_txt(it[1])}")
+            else:
+                lines.append(p1 + f"p{cnt['p']}{refs_txt(it[1])}")
         elif it[0] == "D":
-            if lines:
-                lines.append("")
-            t, d = def_txt(it[1], it[2], False)
-            lines.append(t)
+            body = len(defs) + 1
+            d = {"label": it[1], "body": body, "line": None}
+            defs.append(d)
+            dup = it[1] in seen
+            seen.add(it[1])
+            out = f"[^{it[1]}]: body{body}z"
+            for l in it[2]:
+                if not dup:
+                    ref_labels.append(l)
+                out += f" y[^{l}]"
+            lines.append(p1 + out)
             d["line"] = len(lines)
         else:
-            kind, inner = it[1], it[2]
-            if lines:
-                lines.append("")
-            first = True
-            for sub in inner:
-                if kind == "quote":
-                    if not first:
-                        lines.append(">")
-                    pre = "> "
+            kind, items = it[1], it[2]
+            if kind == "quote":
+                c1, cr = p1 + "> ", pr + "> "
+            elif kind == "list":
+                # consecutive lists get different markers, else Markdown merges them into one list
+                mark = "-*+"[cnt["list"] % 3]
+                cnt["list"] += 1
+                c1, cr = p1 + mark + " ", pr + "  "
+            elif kind == "dl":
+                cnt["term"] += 1
+                lines.append(p1 + f"Term{cnt['term']}")
+                c1, cr = pr + ": ", pr + "  "
+            elif kind == "section":
+                c1, cr = p1, pr
+                items = [["R", it[3] if len(it) > 3 else [], "title"]] + list(items)
+            else:
+                raise ValueError(kind)
+            if not items:
+                items = [["R", []]]
+            for j, sub in enumerate(items):
+                if j > 0:
+                    lines.append(cr.rstrip())
+                if kind == "section" and j == 0:
+                    cnt["p"] += 1
+                    lines.append(c1 + f"# h{cnt['p']}{refs_txt(sub[1])}")
                 else:
-                    if not first:
-                        lines.append("")
-                    # consecutive lists get different markers, else Markdown merges them into one list
-                    pre = ("-*+"[nlist[0] % 3] + " ") if first else "  "
-                if sub[0] == "r":
-                    lines.append(pre + refs_txt(sub[1]))
-                else:
-                    t, d = def_txt(sub[1], sub[2], True)
-                    lines.append(pre + t)
-                    d["line"] = len(lines)
-                first = False
-            if not inner:
-                lines.append("> q" if kind == "quote" else "-*+"[nlist[0] % 3] + " q")
-            if kind == "list":
-                nlist[0] += 1
+                    emit(sub, c1 if j == 0 else cr, cr)
+
+    for k, it in enumerate(arr):
+        if k > 0:
+            lines.append("")
+        emit(it, "", "")
     return "\n".join(lines) + "\n", {"defs": defs, "ref_labels": ref_labels}
+
+
+def to_model(arr):
+    """the model document (Foot.doc) of an arrangement: nested lists ["R", labels] | ["D", label, body, labels] |
+    ["B", items]; body numbers in document order"""
+    n = [0]
+
+    def conv(items):
+        out = []
+        for it in items:
+            if it[0] == "R":
+                out.append(["R", list(it[1])])
+            elif it[0] == "D":
+                n[0] += 1
+                out.append(["D", it[1], n[0], list(it[2])])
+            else:
+                kind = it[1]
+                if kind == "dl":
+                    out.append(["R", []])                       # the term
+                    out.append(["B", conv(it[2]) or [["R", []]]])
+                elif kind == "section":
+                    out.append(["B", [["R", list(it[3]) if len(it) > 3 else []]] + conv(it[2])])
+                else:
+                    out.append(["B", conv(it[2]) or [["R", []]]])
+        return out
+    return conv(arr)
 
 
 def small_arrangements(labels, maxlen, with_box=True):
@@ -89,7 +125,7 @@ def small_arrangements(labels, maxlen, with_box=True):
         alpha.append(["R", [l]])
         alpha.append(["D", l, []])
         if with_box:
-            alpha.append(["B", "quote", [["d", l, []]]])
+            alpha.append(["B", "quote", [["D", l, []]]])
     for n in range(1, maxlen + 1):
         for t in itertools.product(alpha, repeat=n):
             yield [list(x) for x in t]
@@ -105,19 +141,37 @@ def random_arrangement(rng, big=False):
     def pick():
         return rng.choice(labs) if rng.random() < 0.93 else extra
 
-    arr = []
-    for _ in range(rng.randint(1, 12 if big else 7)):
-        r = rng.random()
-        if r < 0.4:
-            arr.append(["R", [pick() for _ in range(rng.randint(0, 3))]])
-        elif r < 0.7:
-            arr.append(["D", rng.choice(labs), [pick() for _ in range(rng.choice([0, 0, 0, 1, 2]))]])
+    def refs(maxn):
+        return [pick() for _ in range(rng.randint(0, maxn))]
+
+    def items(depth, n):
+        out = []
+        for _ in range(n):
+            r = rng.random()
+            if r < 0.4:
+                style = rng.choice(["para", "para", "para", "table", "field"])
+                if style == "field" and out and out[-1][0] == "R" and len(out[-1]) > 2 and out[-1][2] == "field":
+                    style = "para"          # adjacent field lists merge into one block
+                out.append(["R", refs(3), style])
+            elif r < 0.7 or depth >= 3:
+                out.append(["D", rng.choice(labs), [pick() for _ in range(rng.choice([0, 0, 0, 1, 2]))]])
+            else:
+                kind = rng.choice(["quote", "list", "dl", "quote", "list"])
+                sub = items(depth + 1, rng.randint(1, 3))
+                if kind == "list" and sub and sub[0][0] == "B" and sub[0][1] == "dl":
+                    kind = "quote"      # "- Term" + ": def" is read by markdown-it as a term of a preceding definition list
+                out.append(["B", kind, sub])
+        return out
+
+    arr = items(0, rng.randint(1, 10 if big else 6))
+    if rng.random() < 0.3:
+        # one or two headings: everything after a heading is inside its section
+        k = rng.randint(0, len(arr))
+        head, tail = arr[:k], arr[k:]
+        if rng.random() < 0.4 and len(tail) > 1:
+            m = rng.randint(1, len(tail) - 1)
+            secs = [["B", "section", tail[:m], refs(2)], ["B", "section", tail[m:], refs(1)]]
         else:
-            inner = []
-            for _ in range(rng.randint(1, 3)):
-                if rng.random() < 0.5:
-                    inner.append(["r", [pick() for _ in range(rng.randint(0, 2))]])
-                else:
-                    inner.append(["d", rng.choice(labs), [pick() for _ in range(rng.choice([0, 0, 1]))]])
-            arr.append(["B", rng.choice(["quote", "list"]), inner])
+            secs = [["B", "section", tail, refs(2)]]
+        arr = head + secs
     return arr
